@@ -744,6 +744,10 @@ func TestC11(t *testing.T) {
 	}
 
 	rep.Assumptions = append(rep.Assumptions, "the transport is replaced by the generated marshal/unmarshal pair (HTTP/2 and proto3 UTF-8 validation are not exercised); the three backends are separate states driven identically at the same virtual instants")
+	if os.Getenv("VERIF_REPLAY") == "" {
+		c11OverrunPhase(t, rep)
+	}
+
 	rep.write(t, dir)
 }
 
